@@ -23,6 +23,7 @@ type AKECase struct {
 	Who     int   `json:"who"`           // 0 A starts, 1 B starts, 2 both
 	Choices []int `json:"choices"`       // which queue delivers next whenever both are non-empty (missing: 0)
 	Seed    int   `json:"seed,omitempty"`
+	Reps    int   `json:"reps,omitempty"` // the trigger is repeated (reps+1 times) before anything is delivered: a user typing several lines
 }
 
 func verPol(v int) int {
@@ -84,11 +85,12 @@ func runAKE(c *AKECase) (*sim.Outcome, []int, []int) {
 		starters = []int{0, 1}
 	}
 	queued := map[int]string{}
-	for _, p := range starters {
+	extras := c.Reps % 3 // further triggers by the first starter while the exchange is under way, issued where the choice vector says 2
+	trigger := func(p int) bool {
 		if w.P[p].C.IsEncrypted() && (c.Trigger%5 == 1 || c.Trigger%5 == 3) {
 			// these triggers are Send calls: from an encrypted conversation they produce data messages, not a start
 			o.Discard = true
-			return o, nil, nil
+			return false
 		}
 		switch c.Trigger % 5 {
 		case 0, 4:
@@ -97,7 +99,7 @@ func runAKE(c *AKECase) (*sim.Outcome, []int, []int) {
 			if cs := w.Send(p, []byte("hello there")); cs.Err != nil {
 				// a finished conversation refuses to send until End() is called: no start happened
 				o.Discard = true
-				return o, nil, nil
+				return false
 			}
 		case 2:
 			w.Receive(p, []byte("?OTR Error: you sent something unreadable"))
@@ -105,16 +107,23 @@ func runAKE(c *AKECase) (*sim.Outcome, []int, []int) {
 			t := s.Text(p, 5, 0)
 			if cs := w.Send(p, t); cs.Err != nil {
 				o.Discard = true
-				return o, nil, nil
+				return false
 			}
 			queued[p] = string(t)
 		}
 		if len(w.Q[p]) > 0 {
 			first[p] = w.Q[p][0].Data
 		}
+		return true
+	}
+	for _, p := range starters {
+		if !trigger(p) {
+			return o, nil, nil
+		}
 	}
 	// deliver until quiescence, following the choice vector
 	var taken, open []int
+	repeated := 0
 	awaiting := [2]bool{}
 	collision := false
 	var delivered [2][]string
@@ -123,21 +132,36 @@ func runAKE(c *AKECase) (*sim.Outcome, []int, []int) {
 			return o.Fail("C07/no-quiescence", "no quiescence after 200 deliveries"), taken, open
 		}
 		d := 0
-		switch {
-		case len(w.Q[0]) == 0:
-			d = 1
-		case len(w.Q[1]) == 0:
-			d = 0
-		default:
+		both := len(w.Q[0]) > 0 && len(w.Q[1]) > 0
+		if both || extras > 0 {
 			pos := len(taken)
 			ch := 0
+			if len(w.Q[0]) == 0 {
+				ch = 1
+			}
 			if pos < len(c.Choices) {
-				ch = c.Choices[pos] & 1
+				ch = c.Choices[pos] % 3
 			} else {
 				open = append(open, pos)
 			}
+			if ch == 2 && extras == 0 || ch < 2 && len(w.Q[ch]) == 0 {
+				ch = 0 // not available here: take a queue that has something
+				if len(w.Q[0]) == 0 {
+					ch = 1
+				}
+			}
 			taken = append(taken, ch)
+			if ch == 2 {
+				extras--
+				if trigger(starters[0]) {
+					repeated++
+				}
+				o.Discard = false
+				continue
+			}
 			d = ch
+		} else if len(w.Q[0]) == 0 {
+			d = 1
 		}
 		wire := w.Q[d][0].Data
 		rcv := 1 - d
@@ -203,6 +227,9 @@ func runAKE(c *AKECase) (*sim.Outcome, []int, []int) {
 		o.Class("crossing-commits-completed")
 	}
 	o.Class(fmt.Sprintf("trigger%d-who%d-pre%d", c.Trigger%5, c.Who, pre))
+	if repeated > 0 {
+		o.Class(fmt.Sprintf("trigger-repeated-%d", repeated))
+	}
 	// both directions had messages in flight at the same moment: some choice was actually made
 	o.NonTrivial = len(taken) > 0
 	return o, taken, open
@@ -232,30 +259,37 @@ func TestProp_C07_Schedules(t *testing.T) {
 		for trig := 0; trig < 4; trig++ {
 			for who := 0; who < 3; who++ {
 				for pre := 0; pre < 5; pre++ {
-					idx++
-					if idx%sn != si {
-						continue
-					}
-					stack := [][]int{nil}
-					n := 0
-					for len(stack) > 0 {
-						if n >= budget {
-							exhaustive = false
-							break
+					for reps := 0; reps < 1; reps++ { // reps > 0 would add user actions during the exchange: outside the statement
+						if reps > 0 && (pre != 0 || who == 2 || !sim.Thorough() && reps > 1) {
+							continue
 						}
-						prefix := stack[len(stack)-1]
-						stack = stack[:len(stack)-1]
-						c := &AKECase{VA: vp[0], VB: vp[1], Trigger: trig, Who: who, Pre: pre, Choices: prefix}
-						_, taken, open := runAKE(c)
-						c.Choices = taken
-						sim.Judge(t, "C07schedules", c)
-						n++
-						for _, pos := range open {
-							alt := append(append([]int{}, taken[:pos]...), 1)
-							stack = append(stack, alt)
+						idx++
+						if idx%sn != si {
+							continue
 						}
+						stack := [][]int{nil}
+						n := 0
+						for len(stack) > 0 {
+							if n >= budget {
+								exhaustive = false
+								break
+							}
+							prefix := stack[len(stack)-1]
+							stack = stack[:len(stack)-1]
+							c := &AKECase{VA: vp[0], VB: vp[1], Trigger: trig, Who: who, Pre: pre, Reps: reps, Choices: prefix}
+							_, taken, open := runAKE(c)
+							c.Choices = taken
+							sim.Judge(t, "C07schedules", c)
+							n++
+							for _, pos := range open {
+								stack = append(stack, append(append([]int{}, taken[:pos]...), 1))
+								if reps > 0 {
+									stack = append(stack, append(append([]int{}, taken[:pos]...), 2))
+								}
+							}
+						}
+						sim.Count("C07schedules", fmt.Sprintf("schedules-trigger%d-who%d-pre%d-reps%d", trig, who, pre, reps), n)
 					}
-					sim.Count("C07schedules", fmt.Sprintf("schedules-trigger%d-who%d-pre%d", trig, who, pre), n)
 				}
 			}
 		}
@@ -267,8 +301,8 @@ func TestProp_C07_Random(t *testing.T) {
 	defer sim.MarkCompleted("C07random", false)
 	rapid.Check(t, func(rt *rapid.T) {
 		vp := rapid.SampledFrom(verPairs).Draw(rt, "versions")
-		c := &AKECase{VA: vp[0], VB: vp[1], Trigger: rapid.IntRange(0, 3).Draw(rt, "trigger"), Who: rapid.IntRange(0, 2).Draw(rt, "who"), Pre: rapid.IntRange(0, 4).Draw(rt, "pre"),
-			Choices: rapid.SliceOfN(rapid.IntRange(0, 1), 0, 16).Draw(rt, "choices"), Seed: rapid.IntRange(0, 50).Draw(rt, "seed")}
+		c := &AKECase{VA: vp[0], VB: vp[1], Trigger: rapid.IntRange(0, 3).Draw(rt, "trigger"), Who: rapid.IntRange(0, 2).Draw(rt, "who"), Pre: rapid.IntRange(0, 4).Draw(rt, "pre"), Reps: 0, // further triggers while the exchange is under way are "further user action", which the statement excludes (see DESIGN.md §10)
+			Choices: rapid.SliceOfN(rapid.IntRange(0, 2), 0, 20).Draw(rt, "choices"), Seed: rapid.IntRange(0, 50).Draw(rt, "seed")}
 		sim.Judge(rt, "C07random", c)
 	})
 }
